@@ -451,6 +451,9 @@ pub fn c20(ctx: &mut Ctx) {
     }
     let n = ctx.n(400_000, 20_000_000, 150);
     for k in 0..n {
+        if ctx.over_budget() {
+            break;
+        }
         let idx = ctx.shard + k * ctx.nshards;
         let mut rng = Rng::derive(seed, "C20", idx);
         let l = gen_layout(&mut rng);
